@@ -26,6 +26,11 @@ struct Checker
     {
         if (c.prop == "C13")
             c.violation("C13:" + key + ":" + cls, d, cls + " history: " + history);
+        // C11 reuses these executions for "a value written through setData reads back as that value and header fields set
+        // earlier are untouched"
+        else if (c.prop == "C11" && (key == "string-read-back" || key == "vendor-data-read-back" || key == "data-read-back" || key == "stream-ids-read-back" ||
+                                     key == "header-field-lost-by-setData" || key == "length-fields"))
+            c.violation("C11:read-back-differs:" + cls + ".setData(" + key + ")", d, cls + " history: " + history);
         // C12 reuses these executions for the layout of the variable-length parts setData writes (length prefixes,
         // data, NUL / zero padding at the offsets the layout prescribes)
         else if (c.prop == "C12" && (key == "raw-bytes-depend-on-history-or-differ-from-content" || key == "string-not-nul-terminated-or-padded"))
@@ -387,7 +392,36 @@ inline void cm(Ctx& c, Rng& r, long forced)
         sh.swVersion = noNulString(r, len(3));
         sh.vendorData = r.bytes(forced >= 0 ? static_cast<size_t>(forced % 301) : (r.chance(1, 3) ? 0 : r.below(301)));
         std::vector<uint8_t> vd(sh.vendorData.begin(), sh.vendorData.end());
-        obj.setData(sh.description, sh.serial, sh.hwVersion, sh.swVersion, vd);
+        // a string_view is a pointer and a length: the byte behind it is not part of the value. Hand the strings over as
+        // (0) std::string (NUL behind it), (1) slices of a longer text whose next character is not NUL, (2) views over
+        // exact-size heap blocks without terminator (ASan sees a read of the byte behind them)
+        unsigned viewKind = forced >= 0 ? static_cast<unsigned>(forced % 3) : static_cast<unsigned>(r.below(3));
+        if (viewKind == 0)
+            obj.setData(sh.description, sh.serial, sh.hwVersion, sh.swVersion, vd);
+        else if (viewKind == 1)
+        {
+            std::string big = "<" + sh.description + "|" + sh.serial + "#" + sh.hwVersion + "$" + sh.swVersion + ">";
+            size_t o1 = 1, o2 = o1 + sh.description.size() + 1, o3 = o2 + sh.serial.size() + 1, o4 = o3 + sh.hwVersion.size() + 1;
+            std::string_view all(big);
+            obj.setData(all.substr(o1, sh.description.size()), all.substr(o2, sh.serial.size()), all.substr(o3, sh.hwVersion.size()), all.substr(o4, sh.swVersion.size()), vd);
+            c.count("string_views_that_are_slices");
+        }
+        else
+        {
+            auto exact = [](const std::string& t) {
+                char* p = new char[t.size() ? t.size() : 1];
+                if (!t.empty())
+                    memcpy(p, t.data(), t.size());
+                return p;
+            };
+            char *a = exact(sh.description), *b2 = exact(sh.serial), *c2 = exact(sh.hwVersion), *d2 = exact(sh.swVersion);
+            obj.setData(std::string_view(a, sh.description.size()), std::string_view(b2, sh.serial.size()), std::string_view(c2, sh.hwVersion.size()), std::string_view(d2, sh.swVersion.size()), vd);
+            delete[] a;
+            delete[] b2;
+            delete[] c2;
+            delete[] d2;
+            c.count("string_views_over_unterminated_buffers");
+        }
         ck.history += "setData(" + std::to_string(sh.description.size()) + "," + std::to_string(sh.serial.size()) + "," + std::to_string(sh.hwVersion.size()) + "," + std::to_string(sh.swVersion.size()) + "," + std::to_string(vd.size()) + ") ";
         Bytes expect = sh.serialize();
         ck.common(obj, expect, nullptr, wire::MT_STATUS, wire::PT_CM_STATUS, &ASAM::CMP::CaptureModulePayload::isValidPayload);
